@@ -277,6 +277,19 @@ impl NumInteger for i64 {
     #[verifier::external_body] fn is_odd(&self) -> (ret: bool) { unimplemented!() }
     #[verifier::external_body] fn div_rem(&self, other: &Self) -> (ret: (Self, Self)) { unimplemented!() }
 }
+impl NumInteger for u32 {
+    open spec fn int_val(&self) -> int { *self as int }
+    #[verifier::external_body] fn is_even(&self) -> (ret: bool) { unimplemented!() }
+    #[verifier::external_body] fn is_odd(&self) -> (ret: bool) { unimplemented!() }
+    #[verifier::external_body] fn div_rem(&self, other: &Self) -> (ret: (Self, Self)) { unimplemented!() }
+}
+/// num_integer::div_rem (free function, by value)
+#[verifier::external_body]
+pub fn integer_div_rem<T: NumInteger>(x: T, y: T) -> (ret: (T, T))
+    ensures y.int_val() != 0,
+            ret.0.int_val() == tdiv(x.int_val(), y.int_val()),
+            ret.1.int_val() == trem(x.int_val(), y.int_val())
+{ unimplemented!() }
 pub use NumInteger as IntegerTrait;
 
 /// num_traits::Signed as used on BigInt (`abs`, `is_negative`, `is_positive`) and implemented by the crate
@@ -650,6 +663,10 @@ pub assume_specification [core::cmp::Ordering::reverse] (o: Ordering) -> (ret: O
 /// overflow (debug panic / release wrap-around) is excluded by the precondition, i.e. it is an obligation at every call
 pub assume_specification [u64::pow] (b: u64, e: u32) -> (ret: u64)
     requires vstd::arithmetic::power::pow(b as int, e as nat) <= u64::MAX
+    ensures ret == vstd::arithmetic::power::pow(b as int, e as nat);
+
+pub assume_specification [u32::pow] (b: u32, e: u32) -> (ret: u32)
+    requires vstd::arithmetic::power::pow(b as int, e as nat) <= u32::MAX
     ensures ret == vstd::arithmetic::power::pow(b as int, e as nat);
 
 // core::num::NonZeroU64 / NonZeroU8 / NonZeroUsize stand-ins (core's NonZero<T> is generic over an unstable
